@@ -20,8 +20,8 @@ var legalNext = map[string]map[string]bool{
 }
 
 type phaseEv struct {
-	T        int64  `json:"t"`
-	W        int    `json:"wrapper"` // sequence number of the wrapper instance
+	T        int64 `json:"t"`
+	W        int   `json:"wrapper"` // sequence number of the wrapper instance
 	From, To string
 }
 
@@ -127,4 +127,26 @@ func finishPhaseMonitor() {
 	}
 	phaseMu.Unlock()
 	run.Set("phase_edges", edges)
+}
+
+// sendBreakdown classifies the NewProxy messages a proxy name has sent according to the recorded
+// transitions: first registrations of a wrapper instance, registrations after a health recovery,
+// repetitions after the reply timeout and retries after a start error.
+func sendBreakdown(name string) (fresh, revived, resent, retried int) {
+	for _, p := range phaseHistory(name) {
+		if p.To != "wait start" {
+			continue
+		}
+		switch p.From {
+		case "new":
+			fresh++
+		case "check failed":
+			revived++
+		case "wait start":
+			resent++
+		case "start error":
+			retried++
+		}
+	}
+	return
 }
